@@ -101,6 +101,7 @@ package common
 //@   modifies fields(cmOfObj(obj))
 //@   ensures result == nil && typeis(obj, "*v1.ConfigMap") ==> gpusharingconfigmap.cmStored(gpusharingconfigmap.cmKey(key.Namespace, key.Name)) != nil && cmOfObj(obj).Name == key.Name && cmOfObj(obj).Namespace == key.Namespace
 //@   ensures result == nil && typeis(obj, "*v1.ConfigMap") ==> cmOfObj(obj).Data == nil || fresh(cmOfObj(obj).Data)
+//@   ensures result == nil && typeis(obj, "*v1.ConfigMap") ==> (forall s string :: cmOfObj(obj).Data[s] == gpusharingconfigmap.cmStored(gpusharingconfigmap.cmKey(key.Namespace, key.Name)).Data[s])
 //@ end
 //@ func PARKED.sigs.k8s.io/controller-runtime/pkg/client.Client.Patch
 //@   props C11
@@ -111,6 +112,12 @@ package common
 //@   ensures !(result == nil && typeis(obj, "*v1.ConfigMap")) ==> gpusharingconfigmap.cmStored(keyOfCM(obj)) == old(gpusharingconfigmap.cmStored(keyOfCM(obj)))
 //@ end
 
+// strconv.Itoa is a deterministic function of its argument (same declared function as in gpusharingconfigmap)
+//@ func strconv.Itoa
+//@   props C11
+//@   pure
+//@   ensures result == gpusharingconfigmap.itoa(arg0)
+//@ end
 // names of the two ConfigMaps of a fraction container (functions of the pod's runai/shared-gpu-configmap annotation
 // and the container reference): <prefix>-<index> (capabilities) and <prefix>-<index>-evar (direct env vars)
 //@ define capName(pod *v1.Pod, ref *gpusharingconfigmap.PodContainerRef) string = tuple0(gpusharingconfigmap.ExtractCapabilitiesConfigMapName(pod, ref))
@@ -126,26 +133,34 @@ package common
 // C11 "... with its side objects in place (... visible-device and portion settings ...)": success means the capabilities
 // ConfigMap of the fraction container carries the given portion under GPU_PORTION (and the deprecated
 // RUNAI_NUM_OF_GPUS); no other ConfigMap is written; a failure writes nothing.
+// (the names are computed on the entry heap, hence old(..); no function here writes the pod's annotations)
 //@ func SetGPUPortion
 //@   props C11
-//@   requires kubeClient != nil && pod != nil && containerRef != nil
+//@   requires kubeClient != nil && pod != nil && containerRef != nil && gpusharingconfigmap.storeWF()
 //@   modifies family(gpusharingconfigmap.cmStored(""))
-//@   lemma [name-is-the-function] err == nil ==> capabilitiesMapName == capName(pod, containerRef)
-//@   ensures [portion-written-to-the-capabilities-configmap] result == nil ==> gpusharingconfigmap.cmStored(capKey(pod, containerRef)) != nil && gpusharingconfigmap.cmStored(capKey(pod, containerRef)).Data[GPUPortion] == gpuPortionStr && gpusharingconfigmap.cmStored(capKey(pod, containerRef)).Data[NumOfGpusEnvVarBC] == gpuPortionStr
+//@   ensures [store-wf] gpusharingconfigmap.storeWF()
+//@   ensures [portion-written-to-the-capabilities-configmap] result == nil ==> gpusharingconfigmap.cmStored(old(capKey(pod, containerRef))) != nil && gpusharingconfigmap.cmStored(old(capKey(pod, containerRef))).Data[GPUPortion] == gpuPortionStr && gpusharingconfigmap.cmStored(old(capKey(pod, containerRef))).Data[NumOfGpusEnvVarBC] == gpuPortionStr
 //@   ensures [failure-writes-nothing] result != nil ==> (forall k string :: gpusharingconfigmap.cmStored(k) == old(gpusharingconfigmap.cmStored(k)))
-//@   ensures [only-the-capabilities-configmap] forall k string :: k != capKey(pod, containerRef) ==> gpusharingconfigmap.cmStored(k) == old(gpusharingconfigmap.cmStored(k))
+//@   ensures [other-entries-kept] result == nil ==> (forall s string :: s != GPUPortion && s != NumOfGpusEnvVarBC ==> gpusharingconfigmap.cmStored(old(capKey(pod, containerRef))).Data[s] == old(gpusharingconfigmap.cmStored(capKey(pod, containerRef)).Data[s]))
+//@   ensures [nothing-deleted] forall k string :: old(gpusharingconfigmap.cmStored(k)) != nil ==> gpusharingconfigmap.cmStored(k) != nil
+//@   ensures [only-the-capabilities-configmap] forall k string :: k != old(capKey(pod, containerRef)) ==> gpusharingconfigmap.cmStored(k) == old(gpusharingconfigmap.cmStored(k))
 //@ end
 
+//@ define nvdRefAt(ref *gpusharingconfigmap.PodContainerRef, i int) bool = ref.Container.Env[i].Name == constants.NvidiaVisibleDevices && ref.Container.Env[i].ValueFrom != nil && ref.Container.Env[i].ValueFrom.ConfigMapKeyRef != nil
+//@ define nvdFromConfigMap(ref *gpusharingconfigmap.PodContainerRef, n int) bool = exists i int :: 0 <= i && i < n && nvdRefAt(ref, i)
 // visible devices: written to the capabilities ConfigMap when the container's NVIDIA_VISIBLE_DEVICES comes from a
 // ConfigMap key reference (pods mutated by older versions), otherwise to the direct-env-vars ConfigMap.
 //@ func SetNvidiaVisibleDevices
 //@   props C11
-//@   requires kubeClient != nil && pod != nil && containerRef != nil && containerRef.Container != nil
+//@   requires kubeClient != nil && pod != nil && containerRef != nil && containerRef.Container != nil && gpusharingconfigmap.storeWF()
 //@   modifies family(gpusharingconfigmap.cmStored(""))
+//@   ensures [store-wf] gpusharingconfigmap.storeWF()
 //@   loop 1
 //@     invariant -1 <= rangeindex && rangeindex < len(containerRef.Container.Env)
+//@     invariant nvidiaVisibleDevicesDefinedInSpec == nvdFromConfigMap(containerRef, rangeindex + 1)
 //@     decreases len(containerRef.Container.Env) - rangeindex
-//@   ensures [visible-devices-written] result == nil ==> gpusharingconfigmap.cmStored(ite(nvidiaVisibleDevicesDefinedInSpec, capKey(pod, containerRef), envKey(pod, containerRef))) != nil && gpusharingconfigmap.cmStored(ite(nvidiaVisibleDevicesDefinedInSpec, capKey(pod, containerRef), envKey(pod, containerRef))).Data[constants.NvidiaVisibleDevices] == visibleDevicesValue
+//@   ensures [visible-devices-written] result == nil ==> gpusharingconfigmap.cmStored(ite(nvdFromConfigMap(containerRef, len(containerRef.Container.Env)), old(capKey(pod, containerRef)), old(envKey(pod, containerRef)))) != nil && gpusharingconfigmap.cmStored(ite(nvdFromConfigMap(containerRef, len(containerRef.Container.Env)), old(capKey(pod, containerRef)), old(envKey(pod, containerRef)))).Data[constants.NvidiaVisibleDevices] == visibleDevicesValue
 //@   ensures [failure-writes-nothing] result != nil ==> (forall k string :: gpusharingconfigmap.cmStored(k) == old(gpusharingconfigmap.cmStored(k)))
-//@   ensures [only-the-two-configmaps-of-the-container] forall k string :: k != capKey(pod, containerRef) && k != envKey(pod, containerRef) ==> gpusharingconfigmap.cmStored(k) == old(gpusharingconfigmap.cmStored(k))
+//@   ensures [nothing-deleted] forall k string :: old(gpusharingconfigmap.cmStored(k)) != nil ==> gpusharingconfigmap.cmStored(k) != nil
+//@   ensures [only-the-two-configmaps-of-the-container] forall k string :: k != old(capKey(pod, containerRef)) && k != old(envKey(pod, containerRef)) ==> gpusharingconfigmap.cmStored(k) == old(gpusharingconfigmap.cmStored(k))
 //@ end
